@@ -66,12 +66,17 @@ def bilerp (a b c d w1 w2 : α) : α := lerp (lerp a b w1) (lerp c d w1) w2
 end
 
 section
-variable {α : Type} [Add α] [Sub α] [Mul α] [Div α] [Neg α] [OfNat α 2] [OfNat α 3] [Max α]
-  [Transc α]
+variable {α : Type} [Add α] [Sub α] [Mul α] [Div α] [Neg α] [OfNat α 0] [OfNat α 2] [OfNat α 3]
+  [LE α] [DecidableLE α] [Max α] [Transc α]
 
-/-- `ww_width = (cost * (3/2) * gamma^2 * spot / a) ^ (1/3)` -/
+/-- `ww_width`: `width = (cost * (3/2) * gamma^2 * spot / a) ^ (1/3)`, then
+`width.where(cost != 0, 0)`: without transaction cost there is no band, also where `gamma` is
+infinite (`0 * inf` would give NaN).  `cost ≤ 0 ∧ 0 ≤ cost` is "`cost == 0`" with the available
+classes (true for `±0`); for a NaN cost both comparisons are false, so the value is computed (NaN),
+exactly as `NaN != 0` is `True` in torch. -/
 def wwWidth (gamma spot cost a : α) : α :=
-  Transc.cbrt (cost * ((3 : α) / 2) * (gamma * gamma) * spot / a)
+  if cost ≤ 0 ∧ 0 ≤ cost then 0
+  else Transc.cbrt (cost * ((3 : α) / 2) * (gamma * gamma) * spot / a)
 
 /-- `svi_variance = a + b (rho (k-m) + sqrt((k-m)^2 + sigma^2))` -/
 def sviVariance (k a b rho m sigma : α) : α :=
